@@ -481,7 +481,7 @@ def _post():
 def base_case(draw, kinds):
     cfg = draw(gen.model_cfg(kinds=kinds, dim=(1, 3)))
     feats = [f"f{j}" for j in range(cfg["kwargs"]["dimension"])]
-    n = draw(st.sampled_from([4, 5, 7, 8]))
+    n = draw(st.sampled_from([4, 5, 7, 8] if cfg["kind"] != "mixture_logistic" else [7, 8]))
     cohort = draw(gen.cohort(kind=gen.data_kind_for(cfg), n_ind=(n, n), n_visits=(1, 4), features=feats,
                              event=cfg["kind"] == "joint", id_kinds=("s",), shuffle=False))
     return dict(cfg=cfg, cohort=cohort)
